@@ -186,7 +186,8 @@ def run_shard(shard, acc):
             return
         M = data.draw(gen.model(logic))
         M.opaque_fill = lambda w, s: V[data.draw(st.integers(0, len(V) - 1))]
-        ident_heavy = data.draw(st.integers(0, 4)) == 0
+        # identity rules and closures exist in the classical family only: half of its cases are identity-heavy
+        ident_heavy = data.draw(st.integers(0, 1 if R.is_classical(logic) and R.is_quantified(logic) else 4)) == 0
         prof = profile_for(logic, M.consts, ident_heavy)
         if serial_share:
             prof = gen.Profile(consts=tuple(M.consts), w_atom=5, w_pred=1, w_ident=0, w_neg=4, w_assert=0, w_bin=3, w_modal=12, w_quant=0,
